@@ -1,5 +1,5 @@
 """Property -> rules registry.  Rules are added here as they are built; a property without rules is not claimed."""
-from .rules import determinism, panics, wiring, traversal, annot, shape, hygiene, enums, shrinking, fresh, sharing, codegen, abi, pmoves, labels, runtime, typing as typing_rules
+from .rules import determinism, panics, wiring, traversal, annot, shape, hygiene, enums, shrinking, fresh, sharing, codegen, abi, pmoves, labels, runtime, typing as typing_rules, formatting
 
 
 def _thorough_only(rule):
@@ -12,6 +12,17 @@ def _thorough_only(rule):
 
 
 PROPS = {
+    "C16": {
+        "rules": [formatting.rule_pgram, formatting.rule_lex, enums.rule_enum_surface,
+                  traversal.rule_trav(["scc_printer::types::Print"])],
+        "text": "Printer/grammar agreement decided statically: every Fun syntax node's Print impl is folded into its token templates "
+                "(abstract interpretation of MIR with the `pretty` builder modelled), each template is re-lexed with the grammar's "
+                "longest-match lexer and must derive from a production that builds the node with holes bound to the same fields in "
+                "the same order (R-PGRAM); adjacent token/hole pairs are checked for lexer merging (R-LEX); every syntactic field is "
+                "printed (R-TRAV) and operators round-trip (R-ENUM/surface).",
+        "assumptions": ["layout (groups, nesting, soft lines) never changes the token sequence - follows from pretty's semantics, trusted",
+                        "round trip over all widths/indents is not enumerated; the token-level argument is layout-independent"],
+    },
     "C15": {
         "rules": [typing_rules.rule_zip, typing_rules.rule_dup, typing_rules.rule_nodup, typing_rules.rule_result, typing_rules.rule_clause_exits,
                   traversal.rule_trav(["fun::typing::check::Check"]), annot.rule_annot_check, panics.rule_panic(("A",))],
